@@ -585,6 +585,24 @@ func (P *Prog) foreignIssueRows(r *Result, allD []string) []producerRow {
 // unknownErrorAdoptsDtype: in (*SchemaCtx).IssueFromUnknownError, on the path
 // where err is already a *ZogIssue, is its Dtype filled from the context
 // (unconditionally or when empty)?
+// copiedFrom: dst is a pointer into which the whole struct behind src (a pointer, seen through its type assertion) is
+// copied: `*dst = *src`. The execution's own copy of a callback's issue.
+func copiedFrom(dst, src ssa.Value) bool {
+	d := cv(dst)
+	refs := d.Referrers()
+	if refs == nil {
+		return false
+	}
+	for _, rf := range *refs {
+		if st, ok := rf.(*ssa.Store); ok && cv(st.Addr) == d {
+			if u, ok := cv(st.Val).(*ssa.UnOp); ok && u.Op == token.MUL && cvi(u.X) == src {
+				return true
+			}
+		}
+	}
+	return false
+}
+
 func (P *Prog) unknownErrorAdoptsDtype() (bool, string) {
 	R := P.roles
 	fn := P.fn("(*zog/internals.SchemaCtx).IssueFromUnknownError")
@@ -602,7 +620,7 @@ func (P *Prog) unknownErrorAdoptsDtype() (bool, string) {
 			eachInstr(u.fn, func(_ *ssa.BasicBlock, _ int, in ssa.Instruction) {
 				if st, isSt := in.(*ssa.Store); isSt {
 					base, f := fieldVar(st.Addr)
-					if f == nil || !sameField(f, dtypeF) || cvi(base) != errP {
+					if f == nil || !sameField(f, dtypeF) || (cvi(base) != errP && !copiedFrom(base, errP)) {
 						return
 					}
 					if _, vf := loadOfField(cv(st.Val)); vf != nil && sameField(vf, R.FDType) {
